@@ -516,6 +516,12 @@ func (d *decoderState) ReadToken() (Token, error) {
 		}
 	}
 
+	// A literal or number can never be an object name; report that at the
+	// start of the token rather than lexing a token that cannot be valid here.
+	if (next == 'n' || next == 'f' || next == 't' || next == '0') && d.Tokens.Last.NeedObjectName() {
+		return Token{}, wrapSyntacticError(d, ErrNonStringName, pos, +1)
+	}
+
 	// Handle the next token.
 	var n int
 	switch next {
@@ -723,6 +729,12 @@ func (d *decoderState) ReadValue(flags *jsonwire.ValueFlags) (Value, error) {
 		if d.Tokens.needDelim(next) != delim {
 			return nil, d.checkDelim(delim, next)
 		}
+	}
+
+	// A literal or number can never be an object name; report that at the
+	// start of the value rather than lexing a value that cannot be valid here.
+	if (next == 'n' || next == 'f' || next == 't' || next == '0') && d.Tokens.Last.NeedObjectName() {
+		return nil, wrapSyntacticError(d, ErrNonStringName, pos, +1)
 	}
 
 	// Handle the next value.
